@@ -276,7 +276,9 @@ def check_rule(ctx, case):
                     break
                 exp += list(sub)
             if exp is not None:
-                ctx.check(list(res) == exp, sig + "/recursion", lambda: "%r[%d] depth %d -> %r, depth-0 results and their substitutions give %r" % (
+                # (as a collection: neither the statement nor the docstring fixes the order of the answers or says whether an
+                # answer that is reached twice is listed twice)
+                ctx.check(set(map(repr, res)) == set(map(repr, exp)), sig + "/recursion", lambda: "%r[%d] depth %d -> %r, depth-0 results and their substitutions give %r" % (
                     prog, idx, arg, res, exp))
     ctx.note_case(_key_acc(key) or a0 != 0 or s0 != "" or (rule == "general" and arg > 0),
                   ["rule:" + rule, "rule:%s:%s" % (rule, "empty" if nres == 0 else "results"), "index:negative" if idx < 0 else "index:non-negative"])
